@@ -60,8 +60,9 @@ def const_expr(draw, depth, floor_div_ok=True):
     if op in ("<<", ">>"):
         r = Num(draw(st.integers(0, 31)))
     elif op == "**":
-        r = Num(draw(st.integers(0, 9)))
-        l = draw(gen.num(st.one_of(st.integers(-40, 40), st.sampled_from([46341, -46341, 65536, 2, 3, 10, -2, 1 << 16]))))
+        # every exponent >= 0 is inside the stated domain: small ones, the word size and beyond
+        r = Num(draw(st.one_of(st.integers(0, 9), st.integers(0, 70), st.sampled_from([31, 32, 33, 63, 64]))))
+        l = draw(gen.num(st.one_of(st.integers(-40, 40), st.sampled_from([46341, -46341, 65536, 2, 3, 5, 7, -3, -5, 10, -2, 1 << 16]))))
     else:
         r = draw(const_expr(depth - 1, floor_div_ok))
     e = Bin(op, l, r)
@@ -81,7 +82,7 @@ def strategy_(draw, tier):
     if site == "irfunc":
         op = draw(st.sampled_from(OPS))
         l = draw(gen.num(gen.int32()))
-        r = Num(draw(st.integers(0, 31))) if op in ("<<", ">>") else (Num(draw(st.integers(0, 9))) if op == "**" else draw(gen.num(gen.int32())))
+        r = Num(draw(st.integers(0, 31))) if op in ("<<", ">>") else (Num(draw(st.one_of(st.integers(0, 9), st.integers(0, 70)))) if op == "**" else draw(gen.num(gen.int32())))
         if op == "**":
             l = Num(draw(st.integers(-40, 40)))
         if op == "/" and known.active("ir-fold-floor-div") and r.v != 0 and (l.v < 0) != (r.v < 0) and l.v % r.v != 0:
